@@ -47,20 +47,27 @@ Theorem C10_root_too_large : forall fs L c root f,
 Proof. exact root_too_large. Qed.
 Print Assumptions C10_root_too_large.
 
-(* for ALL file systems, include graphs (cyclic ones, globs, self includes), caches and limits:
+(* for ALL file systems, include graphs (cyclic ones, globs, self includes), limits and coherent caches
+   (every cache entry is the file as the file system holds it: an invariant of every history, C11):
    resolution terminates -- the driver's fuel |files| + 2 is never exhausted, because every
    recursive call marks a file that was not marked before ... *)
-Theorem C10_terminates : forall fs L cache0 root override, load_root fs L cache0 root override <> None.
+Theorem C10_terminates : forall fs L cache0 root override,
+  coherent fs L cache0 -> load_root fs L cache0 root override <> None.
 Proof. exact load_root_total. Qed.
 Print Assumptions C10_terminates.
 
 (* ... and it is sound with respect to graph reachability: every file in the resolved order is
    reachable from the journal being loaded through include directives (of files as read from the
-   file system), whatever the cache holds and whatever the limits are.  The converse (every
+   file system), whatever the (coherent) cache holds and whatever the limits are.  The converse (every
    reachable file is loaded) is what the refutations above and C11's findings are about. *)
 Theorem C10_resolved_files_are_reachable : forall fs L cache0 root override out r f,
+  coherent fs L cache0 ->
   match override with Some g => Some g | None => flookup root fs end = Some f ->
   load_root fs L cache0 root override = Some out -> o_res out = Some r ->
   forall x, In x (r_order r) -> reach fs (f_dirs f) x.
 Proof. exact load_root_sound. Qed.
 Print Assumptions C10_resolved_files_are_reachable.
+
+Theorem C10_fresh_loader_is_coherent : forall fs L, coherent fs L [].
+Proof. exact coherent_nil. Qed.
+Print Assumptions C10_fresh_loader_is_coherent.
